@@ -389,11 +389,13 @@ def run_history(drv, dev, steps, shipped=False, compare=False):
     ipmi = dev10.make_ipmi(iface)
     old = _patch_parsers()
     res = []
+    last_dump = None
     try:
         for st in steps:
             device.faults(st.get('faults') or [])
             device.snap()
-            cur = dict(dev, frus=_frus_of_dump(device.dump()))
+            cur = dict(dev, frus=_frus_of_dump(last_dump)) if last_dump is not None else \
+                dict(dev, frus=[(int(i), h) for i, h in dev['frus']])
             start = len(iface.trace)
             iface.cap = start + 6 * sum(len(h) // 2 for _, h in cur['frus']) + 400
             try:
@@ -405,7 +407,8 @@ def run_history(drv, dev, steps, shipped=False, compare=False):
             except Exception as e:  # noqa
                 out = dev10.outcome_tag(e)
             model = drv.ask('run %d %s' % (1 if shipped else 0, ' '.join(str(x) for x in st['op']))) if compare else None
-            res.append((cur, out, iface.trace[start:], device.dump(), model))
+            last_dump = device.dump()
+            res.append((cur, out, iface.trace[start:], last_dump, model))
     finally:
         _unpatch_parsers(old)
     return res
@@ -458,7 +461,7 @@ def history_case(ctx, drv, dev, steps, shipped, tag):
                 v['what'] += ' - on an Ipmi object that performed other operations before (the same operation on a ' \
                              'fresh object against the same device contents is served correctly)'
                 v['case'] = {'dev': dev, 'steps': small, 'step': len(small) - 1}
-            elif k > 0:
+            else:
                 v['case'] = {'dev': cur, 'steps': [steps[k]], 'step': 0}
             ctx.violate(v['signature'], v['what'], v['case'], expected=v['expected'], observed=v['observed'])
         parts = model.split(' | ')
@@ -505,7 +508,7 @@ def _prior_op(rng, dev):
     if r < 0.6:
         off, cnt = _range(rng, n)
         return ['read', str(fid), str(off), str(cnt)]
-    if r < 0.7 and n <= 1200:
+    if r < 0.7 and n <= 300:
         return ['full', str(fid)]
     if r < 0.8:
         return ['read', str(rng.choice([i for i in range(256) if i not in store])), '0', '8']
@@ -685,9 +688,13 @@ def run(ctx):
         else 'get_fru_multirecord_area intended'
     quick = ctx.tier == 'quick'
     nsample = 0
+    hrng = ctx.rng('c10-history')
 
     def go(dev, op, tag):
         out, trace = one_case(ctx, drv, dev, op, shipped)
+        if tag != 'large' and (len(trace) <= 40 or hrng.random() < 0.3):
+            # the same case as SECOND operation of an Ipmi object that did something else before
+            history_case(ctx, drv, dev, [{'op': _prior_op(hrng, dev)}, {'op': op}], shipped, 'single-case-as-second-operation')
         ctx.count('op:' + op[0])
         ctx.count('gen:' + tag)
         ctx.count('limit:%s' % ('1' if dev['limit'] == 1 else '2' if dev['limit'] == 2 else '3-31' if dev['limit'] < 32
@@ -775,6 +782,17 @@ def run(ctx):
         if ctx.time_left() < 20:
             ctx.notes.append('time budget reached in generator 6')
             break
+    # 7. histories on one Ipmi object: directed shapes, then random sequences of 2..6 operations
+    wl = (_consts or {}).get('fru', {}).get('writeLen', 16) or 16
+    for rep in range(1 if quick else 6):
+        for tag, dev, steps in directed_histories(hrng, wl):
+            history_case(ctx, drv, dev, steps, shipped, tag)
+    for _ in range(250 if quick else 5000):
+        dev, steps = gen_history(hrng, wl)
+        history_case(ctx, drv, dev, steps, shipped, 'random')
+        if ctx.time_left() < 15:
+            ctx.notes.append('time budget reached in generator 7 (histories)')
+            break
     ctx.extra['constants'] = (_consts or {}).get('fru')
 
 
@@ -814,10 +832,34 @@ def search(ctx):
 
 def replay(ctx, v):
     case = v['case']
-    dev, op = case['dev'], [str(x) for x in case['op']]
+    dev = case['dev']
     dev['frus'] = [(int(i), h) for i, h in dev['frus']]
     drv = ctx.driver('drv_c10')
     global _consts
+    if 'steps' in case:
+        if _consts is None:
+            try:
+                _consts = loops10.extract_lenient()
+            except Exception:  # noqa
+                _consts = None
+        steps = case['steps']
+        print('device : %s' % dev_line(dev)[:300])
+        print('history on ONE Ipmi object (%d operations; each judged against the contents at its start):' % len(steps))
+        res = run_history(drv, dev, steps)
+        bad = False
+        for k, r in enumerate(res):
+            cur, out, trace, dump, _ = r
+            print(' step %d : %s%s' % (k, ' '.join(str(x) for x in steps[k]['op'])[:120],
+                                       '   faults %s' % steps[k]['faults'] if steps[k].get('faults') else ''))
+            print('   code  : %s' % out[:200])
+            print('   trace : %s' % dev10.show_trace(trace)[:400])
+            for x in _judge_step(ctx.__class__, dev, steps, k, r):
+                bad = True
+                print('   violated: %s' % x['what'][:300])
+                print('     expected: %s' % (json.dumps(x['expected'])[:300]))
+                print('     observed: %s' % (json.dumps(x['observed'])[:300]))
+        return bad
+    op = [str(x) for x in case['op']]
     if _consts is None:
         try:
             _consts = loops10.extract_lenient()
